@@ -158,7 +158,7 @@ def units(tier):
     gens = [ei.singles(ei.POOL1 + ei.POOL2), ei.pairs(ei.POOL1 if tier == "thorough" else ei.POOL1[:20]), ei.sharing(), ei.sharing(("fld", "uid", "e")),
             ei.nested_tuples(), ei.big()]  # fmt: skip
     if tier == "thorough":
-        gens.append(ei.triples(ei.POOL1[:14]))
+        gens.append(ei.triples(ei.POOL1[:26]))
         gens.append(ei.pairs(ei.POOL2[:8] + ["a"]))
     for g in gens:
         out += [("case", tag, ast, envs) for tag, ast, envs in g]
